@@ -106,8 +106,12 @@ VF_PROPERTY(trunc_char_256, 1, "same for target char, chunk 256") { truncation_c
 VF_PROPERTY(writer_bytes, 2, "CEncodedStreamWriter(encoding, BOM) fed with the text in pieces of char / char16_t / char32_t strings: bytes == BOM + reference encoding; non-trivial = text has supplementary-plane characters or non-UTF-8 target")
 {
 	const int enc = static_cast<int>(c.src.draw(5)); const bool bom = c.src.coin(); const Scalars text = gen_text(c.src, 32, false);
-	std::ostringstream os; { CEncodedStreamWriter w(os, static_cast<UtfType>(enc), bom, c.src.coin() ? UtfEncodingErrorPolicy::Skip : UtfEncodingErrorPolicy::ThrowError);
+	const bool strict = c.src.coin();
+	std::ostringstream os; { CEncodedStreamWriter w(os, static_cast<UtfType>(enc), bom, strict ? UtfEncodingErrorPolicy::ThrowError : UtfEncodingErrorPolicy::Skip);
 		size_t i = 0; while (i < text.size()) { size_t n = 1 + c.src.draw(7); Scalars part = text.substr(i, n); i += part.size();
+			// history on the same writer: a rejected Write (strict policy, ill-formed UTF-8 after a valid prefix; transcoding targets only) must write nothing and leave nothing behind
+			if (strict && enc != refutf::U8 && c.src.chance(1, 5)) { static const char* bad[] = { "row-1;\xFFtail", "ab\xC3", "x\xED\xA0\x80y", "valid prefix \xF8" }; const std::string before = os.str(); const auto rc = w.Write(std::string(bad[c.src.draw(4)])); c.label("after-a-rejected-write");
+				if (rc == UtfEncodingErrorCode::Success) c.fail("writer accepts ill-formed text under the strict policy", refutf::enc_name(enc)); if (os.str() != before) c.fail("a rejected Write() changed the stream", vf::cat(refutf::enc_name(enc), " ", os.str().size() - before.size(), " bytes appeared")); }
 			UtfEncodingErrorCode rc; switch (c.src.draw(3)) { case 0: rc = w.Write(native<char>(part)); break; case 1: rc = w.Write(native<char16_t>(part)); break; default: rc = w.Write(native<char32_t>(part)); break; }
 			if (rc != UtfEncodingErrorCode::Success) c.fail("writer reports an error for valid text", refutf::show(part)); } }
 	const std::string want = (bom ? refutf::bom_bytes(enc) : std::string()) + refutf::enc_bytes(text, enc);
@@ -126,7 +130,9 @@ VF_PROPERTY(detect_encoding, 2, "DetectEncoding(string_view) and DetectEncoding(
 	size_t off = 99; const UtfType d1 = DetectEncoding(std::string_view(bytes), off);
 	if (bytes.empty()) return;
 	if (static_cast<int>(d1) != enc || off != head.size()) c.fail("DetectEncoding(string_view) wrong", vf::cat(refutf::enc_name(enc), bom ? "+bom " : "-bom ", vf::hex(bytes.substr(0, 40)), " -> ", refutf::enc_name(static_cast<int>(d1)), " offset ", off));
-	const bool skip = c.src.coin(); std::istringstream is(bytes); const UtfType d2 = DetectEncoding(is, skip);
+	// the text may start anywhere in the stream (a preamble was consumed before): detection and positioning are relative to the current position
+	const bool skip = c.src.coin(); const std::string preamble = c.src.coin() ? std::string() : std::string(1 + c.src.draw(40), '#'); if (!preamble.empty()) c.label("stream-not-at-zero");
+	std::istringstream is(preamble + bytes); is.seekg(static_cast<std::streamoff>(preamble.size())); const UtfType d2 = DetectEncoding(is, skip);
 	if (static_cast<int>(d2) != enc) c.fail("DetectEncoding(istream) wrong", vf::cat(refutf::enc_name(enc), bom ? "+bom " : "-bom ", vf::hex(bytes.substr(0, 40)), " -> ", refutf::enc_name(static_cast<int>(d2))));
 	std::string rest((std::istreambuf_iterator<char>(is)), std::istreambuf_iterator<char>());
 	const std::string wantRest = skip ? bytes.substr(head.size()) : bytes;
